@@ -934,3 +934,43 @@ def tcp_try_read_buffer(ctx):
         ctx.prove(isinstance(rb1, Win) and And(Eq(rb1.n, head.n), Implies(And(j >= 0, j < to_z3(head.n)), rb1.at(j) == head.at(j))),
                   'C13:O13.3.read-loop.nothing-added-after-the-last-successful-read')
     ctx.prove(fld(ctx, conn, 'lastReadTime') is not last0, 'C13+C14:O13.3.read-loop.last-read-time-refreshed')
+
+
+# ------------------------------------------------------------------------------------------------ constructors establish what the units assume
+@unit(name='tcp.init', relpath=TMOD, qual=['TcpConnection.__init__'], props=['C13', 'C14'], cases=[dict(incoming=False), dict(incoming=True)],
+      doc='the constructor establishes the representation the other tcp units start from: empty read and write buffers; an outgoing connection '
+          'object starts DISCONNECTED without socket or descriptor; a connection wrapped around an accepted socket starts CONNECTED with the '
+          'socket\'s descriptor subscribed exactly once for READ|WRITE|ERROR with its own handler; state != DISCONNECTED iff it has a descriptor')
+def tcp_init(ctx, incoming):
+    mod = source.load(TMOD)
+    fn, ci = mod.find('TcpConnection.__init__')
+    subs = []
+    fileno = FreshInt('acceptedFileno')
+    sock = ctx.alloc(PObj('Socket', {})) if incoming else None
+    poller = ctx.alloc(PObj('Poller', {}))
+    conn = ctx.alloc(PObj('TcpConnection', {}))
+    reg = dict(REG)
+    reg.update({'Socket.fileno': lambda I, s, a, k: fileno, 'Poller.subscribe': lambda I, s, a, k: subs.append(tuple(a)),
+                'TcpConnection.setSockoptKeepalive': lambda I, s, a, k: None})
+    I = Interp(ctx, registry=reg, externals=dict(EXT), hooks={'call:cb': cb_hook})
+    I.cur_mod = mod
+    try:
+        I.call_funcdef(fn, mod, 'TcpConnection', conn, [poller], {'socket': sock, 'timeout': FreshReal('timeout')}, None, 'TcpConnection.__init__')
+        outcome = 'ok'
+    except PyExc as e:
+        outcome = e.typ
+    ctx.prove(outcome == 'ok', 'C13+C14:init.no-exception', info=outcome)
+    if outcome != 'ok':
+        return
+    f = ctx.cell(conn).fields
+    rb, wb = f.get(TC('readBuffer')), f.get(TC('writeBuffer'))
+    ctx.prove(isinstance(rb, Win) and isinstance(wb, Win) and Eq(rb.n, 0) and Eq(wb.n, 0), 'C13:init.buffers-start-empty')
+    if incoming:
+        ctx.prove(f.get(TC('state')) == CONNECTED and f.get(TC('socket')) is sock and f.get(TC('fileno')) is fileno, 'C14:init.accepted-socket-starts-CONNECTED')
+        from pyvc.interp import BoundMethod
+        ctx.prove(len(subs) == 1 and subs[0][0] is fileno and isinstance(subs[0][1], BoundMethod) and subs[0][1].name.endswith('__processConnection')
+                  and subs[0][2] == 7, 'C14+C13:init.accepted-socket-subscribed-once-for-read-write-error', info=repr(subs))
+    else:
+        ctx.prove(f.get(TC('state')) == DISCONNECTED and f.get(TC('socket')) is None and f.get(TC('fileno')) is None and not subs,
+                  'C14:init.outgoing-connection-starts-DISCONNECTED-unsubscribed')
+    ctx.prove(f.get(TC('onDisconnected')) is None and f.get(TC('onMessageReceived')) is None, 'C14:init.no-callbacks-until-set')
